@@ -9,6 +9,7 @@ A: every TLC-enumerated image encoded by harness/enc_vmdk.py as hosted sparse (h
 B: random real-geometry images + op sequences validated by TraceDisk."""
 from __future__ import annotations
 
+import os
 import random
 
 from harness import core, disk, diskcheck, diskprop, enc_vmdk, patterns, record, tlc, tracecheck
@@ -63,7 +64,16 @@ def _open_sparse(vf, size, parent):
     from dissect.hypervisor.disk.vmdk import SparseDisk
 
     vf.seek(0)
+    _OPENS[0] += 1
+    if parent is not None and _OPENS[0] % 2:
+        # the way VMDK.__init__ does it for a monolithic sparse delta: the extent is set up first, its parent attached afterwards
+        sd = SparseDisk(vf)
+        sd.parent = parent
+        return disk.SectorAdapter(sd, size)
     return disk.SectorAdapter(SparseDisk(vf, parent=parent), size)
+
+
+_OPENS = [0]
 
 
 def _sectors(s, sector, count):
@@ -142,6 +152,42 @@ def check_flat(ctx, rng, n):
             b = disk.Built(open=op, cell=512, size=size, bases={0: 0}, note={"variant": "flat", "mode": mode, "size": size})
             diskcheck.check_image(ctx, "vmdk", {"flat": size}, view, b, rng, full=size <= 8192 + 512, attrs={"variant": "flat", "mode": mode},
                                   cap=30, sectors_api=_sectors)
+
+
+def check_declared_flat(ctx, rng):
+    """A raw extent is what its descriptor line says it is (FLAT / VMFS): guest content that starts with another container's
+    signature or a whole sparse header is served verbatim, with the declared size."""
+    import importlib
+    import shutil
+    import tempfile
+    from pathlib import Path
+    from dissect.hypervisor.disk.vmdk import VMDK
+    leads = importlib.import_module("props.c10").leads()
+    d = tempfile.mkdtemp(prefix="verif-c02f-")
+    try:
+        for k, lead in enumerate(leads):
+            for typ in ("FLAT", "VMFS"):
+                nsec = rng.choice([8, 24, 64])
+                content = (lead + patterns.pat(7, len(lead), nsec * 512))[:nsec * 512]
+                name = f"raw{k}-flat.vmdk"
+                with open(os.path.join(d, name), "wb") as f:
+                    f.write(content + bytes(rng.choice([0, 512])))     # (the file may be longer than the declared range)
+                with open(os.path.join(d, "d.vmdk"), "w") as f:
+                    f.write(enc_vmdk.descriptor_text([f'RW {nsec} {typ} "{name}"' + (" 0" if typ == "FLAT" else "")], create_type="monolithicFlat" if typ == "FLAT" else "vmfs"))
+                ctx.case(key=("declared-flat", k, typ), nontrivial=True)
+                try:
+                    v = VMDK(Path(d) / "d.vmdk")
+                    got, size = v.read(nsec * 512 + 10), int(v.size)
+                    sec = v.read_sectors(0, 1)
+                except Exception as e:  # noqa: BLE001
+                    ctx.violation({"format": "vmdk", "variant": "flat", "fail": "read-raised", "sub": "declared-flat", "exc": type(e).__name__},
+                                  {"type": typ, "lead": lead[:16].hex(), "error": repr(e)[:300]})
+                    continue
+                if got != content or size != nsec * 512 or sec != content[:512]:
+                    ctx.violation({"format": "vmdk", "variant": "flat", "fail": "read-mismatch", "sub": "declared-flat"},
+                                  {"type": typ, "lead": lead[:16].hex(), "size": size, "want_size": nsec * 512, "diff": disk.first_diff(content, got)})
+    finally:
+        shutil.rmtree(d, ignore_errors=True)
 
 
 def boundary_images(rng, targets, ncells=4):
@@ -348,6 +394,7 @@ def run(ctx):
     profs = (SPARSE_T + COWD_T + SE_T) if thorough else (SPARSE_Q + COWD_Q + SE_Q)
     diskprop.replay_states(ctx, "vmdk", sts, profs, build, attrs_of=_attrs, cap=56 if thorough else 32, sectors_api=_sectors)
     check_flat(ctx, rng, 12 if thorough else 4)
+    check_declared_flat(ctx, rng)
     check_compressed_boundary(ctx, rng, thorough)
     check_large_records(ctx, rng)
     diskprop.traces(ctx, "vmdk", lambda tid, r: _mk_trace(tid, r, 40 if thorough else 25, thorough), 320 if thorough else 70,
